@@ -100,6 +100,123 @@ fn sidecar_dir(p: &Path) -> PathBuf {
     p.with_file_name(name)
 }
 
+/// Observer of the sidecar's directory through inotify. The park points stop actors
+/// between the engine's own steps, but a directory removal is many unlinks inside one
+/// step: a reader of another process can open the published directory between two of
+/// them. The kernel's event queue keeps that order, so the observer can tell "files of
+/// the published directory were unlinked while it still stood at its published path"
+/// (a partial sidecar was observable) from "the directory was first moved away by one
+/// rename and deleted elsewhere" (it never was).
+struct DirWatch {
+    fd: i32,
+    parent_wd: i32,
+    final_name: std::ffi::OsString,
+    /// watch descriptor of a directory seen at the published path -> still there?
+    at_published_path: BTreeMap<i32, bool>,
+    /// inode of the directory currently watched at the published path
+    watched_ino: Option<u64>,
+}
+
+impl DirWatch {
+    fn new(parquet: &Path) -> Option<DirWatch> {
+        use std::os::unix::ffi::OsStrExt;
+        let parent = parquet.parent()?;
+        // SAFETY: plain syscalls on a descriptor this struct owns
+        let fd = unsafe { libc::inotify_init1(libc::IN_NONBLOCK | libc::IN_CLOEXEC) };
+        if fd < 0 {
+            return None;
+        }
+        let c = std::ffi::CString::new(parent.as_os_str().as_bytes()).ok()?;
+        let parent_wd = unsafe { libc::inotify_add_watch(fd, c.as_ptr(), libc::IN_MOVED_FROM | libc::IN_MOVED_TO | libc::IN_DELETE | libc::IN_CREATE) };
+        if parent_wd < 0 {
+            unsafe { libc::close(fd) };
+            return None;
+        }
+        Some(DirWatch { fd, parent_wd, final_name: sidecar_dir(parquet).file_name()?.to_os_string(), at_published_path: BTreeMap::new(), watched_ino: None })
+    }
+
+    /// Called while every actor is parked: start watching the directory that now stands
+    /// at the published path (if it is a new one).
+    fn watch_published(&mut self, parquet: &Path) {
+        use std::os::unix::ffi::OsStrExt;
+        use std::os::unix::fs::MetadataExt;
+        let dir = sidecar_dir(parquet);
+        let Ok(md) = std::fs::metadata(&dir) else { return };
+        if !md.is_dir() || self.watched_ino == Some(md.ino()) {
+            return;
+        }
+        let Ok(c) = std::ffi::CString::new(dir.as_os_str().as_bytes()) else { return };
+        let wd = unsafe { libc::inotify_add_watch(self.fd, c.as_ptr(), libc::IN_DELETE | libc::IN_MOVED_FROM) };
+        if wd >= 0 {
+            self.at_published_path.insert(wd, true);
+            self.watched_ino = Some(md.ino());
+        }
+    }
+
+    /// Drain the queue. Returns the names of entries unlinked (or moved out) from a
+    /// directory that was, at that moment, still at the published path.
+    fn drain(&mut self) -> Vec<String> {
+        let mut removed_in_place = Vec::new();
+        let mut buf = vec![0u8; 64 * 1024];
+        loop {
+            let n = unsafe { libc::read(self.fd, buf.as_mut_ptr() as *mut libc::c_void, buf.len()) };
+            if n <= 0 {
+                break;
+            }
+            let mut off = 0usize;
+            while off + std::mem::size_of::<libc::inotify_event>() <= n as usize {
+                // SAFETY: the kernel wrote a whole inotify_event header at this offset
+                let ev: libc::inotify_event = unsafe { std::ptr::read_unaligned(buf.as_ptr().add(off) as *const libc::inotify_event) };
+                let name_start = off + std::mem::size_of::<libc::inotify_event>();
+                let name_end = name_start + ev.len as usize;
+                let name: Vec<u8> = buf[name_start..name_end.min(n as usize)].iter().cloned().take_while(|b| *b != 0).collect();
+                let name = String::from_utf8_lossy(&name).to_string();
+                if ev.wd == self.parent_wd {
+                    if std::ffi::OsStr::new(&name) == self.final_name && ev.mask & (libc::IN_MOVED_FROM | libc::IN_DELETE) != 0 {
+                        // whatever stood at the published path has left it
+                        for v in self.at_published_path.values_mut() {
+                            *v = false;
+                        }
+                        self.watched_ino = None;
+                    }
+                } else if self.at_published_path.get(&ev.wd) == Some(&true) && ev.mask & (libc::IN_DELETE | libc::IN_MOVED_FROM) != 0 {
+                    removed_in_place.push(name);
+                }
+                off = name_end;
+            }
+        }
+        removed_in_place
+    }
+}
+
+impl Drop for DirWatch {
+    fn drop(&mut self) {
+        unsafe { libc::close(self.fd) };
+    }
+}
+
+/// Whether some builder really holds the cross-process publish lock right now, asked of
+/// the kernel (a non-blocking flock on the same file through our own descriptor) rather
+/// than inferred from park points: an engine that announces the lock but does not hold it
+/// must not be serialised by the controller.
+fn publish_lock_held(parquet: &Path) -> bool {
+    use std::os::unix::io::AsRawFd;
+    let p = sidecar_dir(parquet).with_extension("publish.lock");
+    let Ok(f) = std::fs::OpenOptions::new().create(true).truncate(false).write(true).open(&p) else {
+        return false;
+    };
+    // SAFETY: flock on a descriptor this function owns
+    let r = unsafe { libc::flock(f.as_raw_fd(), libc::LOCK_EX | libc::LOCK_NB) };
+    if r == 0 {
+        unsafe {
+            libc::flock(f.as_raw_fd(), libc::LOCK_UN);
+        }
+        false
+    } else {
+        true
+    }
+}
+
 /// While every actor is parked: a published sidecar that carries `.complete` holds every
 /// row-group file, complete and readable, with the footer's row counts.
 fn published_invariant(parquet: &Path, rg_rows: &[i64]) -> Result<bool, String> {
@@ -151,7 +268,7 @@ pub fn run_c20(_p: &str, tier: Tier, run_seed: u64, _ov: &Value) -> RunOut {
         rows,
     };
     let n_rg_target = 1 + rng.usize(6);
-    let lay = ParquetLayout { file_cuts: vec![], row_group_rows: (rows / n_rg_target).max(1), dictionary: string_kind != 1 || rng.coin(), stats: 2, stem: "t".into(), same_name_dirs: false };
+    let lay = ParquetLayout { file_cuts: vec![], row_group_rows: (rows / n_rg_target).max(1), dictionary: string_kind != 1 || rng.coin(), stats: 2, stem: "t".into(), same_name_dirs: false, empty_row_groups: vec![] };
     datagen::write_parquet_file(&t, 0, rows, &path, &lay).unwrap();
     let rg_rows: Vec<i64> = crate::cluster::splits::footer_truth(&path).1.iter().map(|x| x.0).collect();
 
@@ -175,7 +292,7 @@ pub fn run_c20(_p: &str, tier: Tier, run_seed: u64, _ov: &Value) -> RunOut {
         })
     };
     // initial conditions
-    let initial = *rng.pick(&["none", "none", "stale-sidecar", "dead-staging-dir", "fresh-sidecar"]);
+    let initial = *rng.pick(&["none", "none", "stale-sidecar", "stale-sidecar", "dead-staging-dir", "fresh-sidecar"]);
     let mode = if initial == "none" && rng.chance(1, 6) { 1 } else { 2 };
     match initial {
         "stale-sidecar" => {
@@ -210,7 +327,9 @@ pub fn run_c20(_p: &str, tier: Tier, run_seed: u64, _ov: &Value) -> RunOut {
     let n_actors = 2 + rng.usize(if tier == Tier::Thorough { 5 } else { 3 });
     let mut specs = Vec::new();
     for i in 0..n_actors as u32 {
-        let foreign = rng.chance(1, 2);
+        // a stale sidecar is replaced in two renames: the window between them needs two
+        // builders of different processes and a reader, so such runs get mostly foreign actors
+        let foreign = if initial == "stale-sidecar" { rng.chance(3, 4) } else { rng.chance(1, 2) };
         let nq = 1 + rng.usize(2);
         // live processes have distinct pids; the dead builder of the "dead-staging-dir"
         // initial condition used pid 7001, which a live actor may have been given again
@@ -265,6 +384,15 @@ pub fn run_c20(_p: &str, tier: Tier, run_seed: u64, _ov: &Value) -> RunOut {
         }));
     }
     // the scheduler
+    let mut watch = DirWatch::new(&path);
+    let mut last_seen_whole = false;
+    if let Some(w) = watch.as_mut() {
+        w.watch_published(&path);
+        out.bump("probe.inotify_observer_attached");
+    }
+    if initial == "fresh-sidecar" {
+        last_seen_whole = matches!(published_invariant(&path, &rg_rows), Ok(true));
+    }
     let mut trace: Vec<String> = Vec::new();
     let mut steps = 0;
     let max_steps = 400;
@@ -298,11 +426,29 @@ pub fn run_c20(_p: &str, tier: Tier, run_seed: u64, _ov: &Value) -> RunOut {
         // everyone is parked: the published sidecar must be whole
         let parked_snapshot = s.parked.clone();
         let lock_holder = s.lock_holder;
-        let publish_holder = s.publish_holder;
+        let announced_holder = s.publish_holder;
         drop(s);
+        let publish_locked = publish_lock_held(&path);
+        if announced_holder.is_some() && !publish_locked {
+            out.bump("probe.publish_lock_announced_but_not_held");
+        }
+        // what the step just taken did to the directory at the published path: entries of a
+        // sidecar that was whole before the step must not be unlinked while it stands there
+        if let Some(w) = watch.as_mut() {
+            let removed = w.drain();
+            if !removed.is_empty() && last_seen_whole {
+                out.violations.push(viol("no-partial-sidecar-visible", "published-sidecar-unlinked-in-place", vec![format!("initial:{initial}")],
+                    format!("step {}: {} entries ({:?} ...) of the published, complete sidecar were unlinked while the directory still stood at its published path; a reader of another process could open it half-deleted", trace.last().cloned().unwrap_or_default(), removed.len(), removed.iter().take(3).collect::<Vec<_>>()), json!({"trace": trace})));
+            }
+            w.watch_published(&path);
+        }
+        last_seen_whole = false;
         if initial != "stale-sidecar" || steps > 0 {
             match published_invariant(&path, &rg_rows) {
-                Ok(true) => out.bump("probe.published_sidecar_seen_whole"),
+                Ok(true) => {
+                    last_seen_whole = true;
+                    out.bump("probe.published_sidecar_seen_whole")
+                }
                 Ok(false) => {}
                 Err(e) => {
                     if !(initial == "stale-sidecar" && e.contains("not a complete IPC")) {
@@ -314,7 +460,7 @@ pub fn run_c20(_p: &str, tier: Tier, run_seed: u64, _ov: &Value) -> RunOut {
         // never release an actor into a lock another parked actor holds
         let mut cands: Vec<u32> = parked_snapshot
             .iter()
-            .filter(|(_, site)| !(**site == "ipc.lock.before" && lock_holder.is_some()) && !(**site == "ipc.build.before_publish" && publish_holder.is_some()))
+            .filter(|(_, site)| !(**site == "ipc.lock.before" && lock_holder.is_some()) && !(**site == "ipc.build.before_publish" && publish_locked))
             .map(|(a, _)| *a)
             .collect();
         if cands.is_empty() {
@@ -343,6 +489,15 @@ pub fn run_c20(_p: &str, tier: Tier, run_seed: u64, _ov: &Value) -> RunOut {
         if steps > max_steps {
             stuck = true;
             break;
+        }
+    }
+    if !stuck {
+        if let Some(w) = watch.as_mut() {
+            let removed = w.drain();
+            if !removed.is_empty() && last_seen_whole {
+                out.violations.push(viol("no-partial-sidecar-visible", "published-sidecar-unlinked-in-place", vec![format!("initial:{initial}")],
+                    format!("last step {}: {} entries of the published, complete sidecar were unlinked while the directory still stood at its published path", trace.last().cloned().unwrap_or_default(), removed.len()), json!({"trace": trace})));
+            }
         }
     }
     if stuck {
